@@ -23,8 +23,12 @@ def noisy_shared_world():
     """a and b both need d: under -j2 one of them finds d locked, and the viewer may meet that job's `locked d` record
     before the other job's `do d`"""
     return World("noisy-shared", {"s": ["0", "1"]},
-                 {"top.do": [S(deps=["a", "b"], noise=1)], "a.do": [S(deps=["d"], noise=1, out="file")],
-                  "b.do": [S(deps=["d"], noise=1)], "d.do": [S(deps=["s"], noise=1)]},
+                 {"top.do": [S(deps=["a", "b"], noise=1)],
+                  # a asks for d only once b's chain has started building it, and d goes on only once a has asked: a's
+                  # redo-ifchange finds d locked ("locked d" in a's log, which the viewer follows first)
+                  "a.do": [S(deps=["d"], noise=1, out="file", sync=(("start", "wait", "d-started"), ("start", "set", "a-asked")))],
+                  "b.do": [S(deps=["d"], noise=1)],
+                  "d.do": [S(deps=["s"], noise=1, sync=(("start", "set", "d-started"), ("mid", "wait", "a-asked")))]},
                  ["top", "a", "b", "d"], ["top"])
 
 
